@@ -5,8 +5,7 @@ set -u
 cd "$(dirname "$0")/.."
 export GOFLAGS=-mod=mod GOPROXY=off GOSUMDB=off GOTOOLCHAIN=local
 mkdir -p build/bin evidence replays
-bash bin/mkcoqproject.sh || exit 1
-timeout 7200 make -C coq -j16 > build/setup_coq.log 2>&1 || { tail -40 build/setup_coq.log; echo "coq build failed"; exit 1; }
+bash bin/coqmake.sh > build/setup_coq.log 2>&1 || { tail -40 build/setup_coq.log; echo "coq build had failures (each check reports its own)"; }
 cat /repo/*/go.sum | LC_ALL=C sort -u > harness/go.sum
 for d in harness/cmd/*/; do
   n=$(basename "$d")
